@@ -25,6 +25,8 @@ type TxMeta struct {
 	Note     string `json:"note,omitempty"`  // free text (scenario)
 	PayLen   int    `json:"pay_len"`         // payload + service data bytes
 	Msig     bool   `json:"msig,omitempty"`
+	Chain    byte   `json:"chain"`
+	Payer    string `json:"payer,omitempty"` // who pays the fee if not the sender (check issuer)
 }
 
 // HTx is a transaction in a recorded history.
@@ -377,6 +379,12 @@ func (s *Sim) RunBlock(req *BlockReq, metas []TxMeta, src TxSource) *BlockRes {
 	s.H = req.Height
 	s.T = req.Time
 	s.applyUpdates(req.Height, res.End.ValidatorUpdates)
+	if len(s.ValSetAt(req.Height+2)) == 0 {
+		// Tendermint refuses validator updates that would empty the set (consensus failure): the history ends here
+		s.Stopped = true
+		s.Stats["ended/validator-set-empty"]++
+		return res
+	}
 	s.Pre = s.Post
 	if !s.NoExport {
 		var e types.AppState
